@@ -26,11 +26,52 @@ Readings of the English (weaker reading where ambiguous):
   * "if producing the new data file fails with an exception": the failing effect is any effect up to and
     including os.replace (or a tensor/callback raising).  A fault injected into the cleanup itself
     (os.remove/os.rmdir of the `finally`) necessarily leaves what it failed to remove; for those only
-    atomicity of the destination is required (single-fault assumption, stated in the theorem).
+    atomicity of the destination is required (single-fault assumption, stated in the theorem through the
+    logged `OFail true`).
   * "external tensors reading from it are still valid": valid() is True and tobytes() returns the old bytes.
-  * temp names: mkdtemp returns a fresh, unpredictable name (contract, hypothesis `fresh_tmp` in Coq).
+  * temp names: mkdtemp returns a fresh, unpredictable name (contract, hypothesis `single_wf`/`shard_wf`).
   * process death = os._exit between two effects; no power-loss model (page cache), os.replace is atomic
-    (modelled, not verified).
+    (modelled, not verified).  The proxy file is unbuffered so that "k effects performed" means the same on
+    disk and in the model.
+
+Theorems (coq/theories/C08/Property.v, all "Closed under the global context"):
+  C08_crash_atomic_partial       for every input and every prefix length k: at most k effects happened and the
+                                 destination node is its old node, or a File moved wholesale from the temp path by
+                                 os.replace (OReplace in the first k effects) after EVERY action between the
+                                 creation of the temp file and the rename returned normally
+                                 (`replaced_by_complete`).  Partial only in that the bytes of that complete temp
+                                 file are not identified in closed form with `image` for every tensor kind (see
+                                 Proofs6 for what is proved about `image`); never a mixture/truncation is proved
+                                 in full.
+  C08_interrupt_atomic_partial   the same for any kill point combined with any single injected fault.
+  C08_exception_clean            exception, no kill, fault not in the cleanup: the WHOLE directory equals the
+                                 initial one (dest = old, no temp file/dir, nothing else touched), validity
+                                 flags unchanged.  Single-fault assumption is in the statement.
+  C08_exception_tensors_read_old ... and every ExternalTensor reads what it read before.
+  C08_sharded_never_overwrites   run_sharded under any interruption leaves every pre-existing path unchanged.
+  C08_invalidate_only_if_replaced  invalid afterwards -> invalid before, or samefile(dest) and dest replaced.
+  C08_bystanders_untouched       a single-file save never changes any other pre-existing path.
+Model choices worth knowing: the control flow of the plan is resolved on the initial file system (islink,
+samefile, exists are re-evaluated dynamically only for the logged result); the tie compares both, so a
+divergence shows up as a trace mismatch.  Hard links are independent files in the model (true as long as
+nothing writes in place - which is what the trace equality checks).  Parallel writer (max_workers>1): not
+modelled (C09's subject); oracle only.  copy_file_range fast path of ExternalTensor.tofile is not exercised
+(the proxy file has no fileno, so the documented chunked fallback runs).
+
+Adjacent observation (NOT a C08 violation, reported to the orchestrator): after ir.save(..., external_data=p)
+a *small* ExternalTensor (<= size_threshold_bytes) backed by p is put back into the model by save()'s
+restore, is still valid() but reads the bytes of the NEW file (stale) - the save() docstring promises
+invalidation.  C08 only says "invalidated only when replaced", which holds.
+
+Mutants tried (scratch worktree /tmp/wt-C08, VERIF_REPO), all reported VIOLATION at seed 0, quick tier:
+  M1 invalidate loop moved before os.replace            -> oracle replay (fault at replace: tensor invalid, file not replaced)
+  M2 os.rmdir moved out of the finally (success only)   -> oracle replay (temp dir left after an exception)
+  M3 _check_no_existing_shard_files(paths[1:])          -> oracle replay (sharded save changed a pre-existing file)
+  M4 write in place when no input tensor reads dest     -> oracle replay (destination gone / hard link changed)
+  M5 small external tensors loaded after the write      -> correspondence only (trace), no-failing-input-found
+  M6 symlinked destination not resolved (no realpath)   -> oracle replay (pre-existing symlink replaced)
+  M7 os.remove dropped from the finally                 -> oracle replay (temp file+dir left)
+Unchanged tree: quiet for VERIF_SEED 0..4.
 """
 
 from __future__ import annotations
